@@ -29,7 +29,7 @@ PROPS = {
     'C10': P('proof', ['C10', 'C10b', 'C10c', 'C10d', 'C10e', 'C10f', 'C10g'], 'gamma->linear->gamma: theorems as listed + correspondence + search', partial=['round-trip bound over all floats of [0,1] is PROVED for the power-law family (BT.1886 + 4 aliases, BT.470M, BT.470BG), for Log100 and Log316 (libm log10 hypothesis), for HLG (libm ln hypothesis), for sRGB, xvYCC and Linear (C10.roundtrip13: 13 of 14); for PQ it is not proved: correspondence + exhaustive oracle (thorough)']),
     'C11': P('proof', ['C11'], 'pointwise / layout independence: loop invariants over all geometries + correspondence on sizes 1..64 + pointwise search'),
     'C12': P('proof', ['C12'], 'constructors: iff theorems + correspondence on the geometry stream + independent contract oracle'),
-    'C13': P('proof', ['C13', 'C13b', 'C13c'], 'totality and code validity: theorems + correspondence on special floats + search in optimised and checked builds', builds=['default', 'checked'], partial=['finite inputs in [0,1]^3 give finite outputs: proved for the transfer stage of 13 of the 14 characteristics (C13.curves_finite, corollary of C03.accuracy; log/HLG linear->gamma under the libm hypotheses) and for the whole Rgb -> LinearRgb conversion, every image, 13 characteristics x 11 primaries (C13.rgbToLinear_finite); for the other conversions and for PQ oracle only; overflow/debug-checked builds: usize arithmetic is modelled on Nat, the checked build is exercised by correspondence + oracle']),
+    'C13': P('proof', ['C13', 'C13b', 'C13c', 'C13d'], 'totality and code validity: theorems + correspondence on special floats + search in optimised and checked builds', builds=['default', 'checked'], partial=['finite inputs in [0,1]^3 give finite outputs: proved for the transfer stage of 13 of the 14 characteristics (C13.curves_finite, corollary of C03.accuracy; log/HLG linear->gamma under the libm hypotheses) for the whole Rgb -> LinearRgb conversion, every image, 13 characteristics x 11 primaries (C13.rgbToLinear_finite), for LinearRgb -> Xyb, LinearRgb -> Xyb -> LinearRgb and LinearRgb -> Hsl on [0,1] data and for Yuv -> Rgb on every accepted image with a standard matrix (C13d: linearToXyb_finite, xybToLinear_finite, linearToHsl_finite, yuvToRgb_finite); for chains whose intermediate data leave [0,1] and for PQ oracle only; overflow/debug-checked builds: usize arithmetic is modelled on Nat, the checked build is exercised by correspondence + oracle']),
     'C14': P('proof', ['C14'], 'support/error contract decided over all 3276 triples by `decide` on the model + exhaustive correspondence of all triples'),
     'C15': P('proof', ['C15'], 'Unspecified resolution: mpv table for all sizes, label theorems + exhaustive correspondence + content oracle'),
     'C16': P('proof', ['C16'], 'neutral axis and anchors: exhaustive/evaluated theorems + correspondence on every luma code + search'),
